@@ -3,6 +3,7 @@ _c13_deps = ['harness/io_common.hpp', 'harness/c13_common.hpp']
 _c13_gen = _c13_deps + ['harness/io_seeds.hpp']
 _c13_lib = _c13_deps + ['harness/c13_lib.hpp', 'harness/c12_common.hpp']
 _c13_tiff = _c13_lib + ['harness/c13_tiff.hpp']
+_c13_png = _c13_lib + ['harness/c13_png.hpp']
 _c13_witness = ['spec_checked', 'dev_name', 'dev_FILE', 'dev_istream', 'info_checked', 'subrect_reads', 'subrect_x0>0', 'subrect_y0>0',
                 'subrect_bottom_cut', 'subrect_convert_reads', 'canvas_reads', 'convert_reads', 'scanline_reads', 'scanline_skip_reads',
                 'exact_view_reads', 'larger_view_cases', 'small_view_cases', 'any_image_reads',
@@ -18,7 +19,7 @@ CHECKS['C13'] = dict(
     rule='for every seed {149 independently encoded BMP/PNM/TARGA files covering every variant the decoders distinguish; GIL-written '
          'PNG (9 types x 3 sizes) + 4 Adam7 PNGs written by libpng; GIL-written JPEG (3 types x 4 sizes); GIL-written TIFF (13 types x '
          '{strip, tiled} x {none, LZW} x sizes incl. 18x17); thorough: the repo sample files}: decode == encoder input; 3 devices agree; '
-         'read_image_info dims/depth; every sub-rectangle (top_left,dim) of every seed <= 5x4 (thorough: every seed) through '
+         'read_image_info dims/depth; every sub-rectangle (top_left,dim) of every seed <= 5x4 (thorough: every seed of <= 20 pixels, i.e. also the 9x2 ones) through '
          'read_image, read_and_convert_image<rgba8> and read_view into an interior sub-view of a sentinel canvas, x 3 devices; '
          'read_and_convert_image<P> for each P of the per-format list; scanline reader (all rows; odd rows only); read_view into an '
          'exactly sized guarded buffer; read_view/read_and_convert_view into canvases; 12 one-short destination views; any_image. '
@@ -34,22 +35,26 @@ CHECKS['C13'] = dict(
     tus=[dict(name='c13_bmp', src='harness/c13_bmp.cpp', deps=_c13_gen),
          dict(name='c13_pnm', src='harness/c13_pnm.cpp', deps=_c13_gen),
          dict(name='c13_targa', src='harness/c13_targa.cpp', deps=_c13_gen),
-         dict(name='c13_png', src='harness/c13_png.cpp', deps=_c13_lib, libs=['-lpng', '-lz']),
+         dict(name='c13_png_a', src='harness/c13_png_a.cpp', deps=_c13_png, libs=['-lpng', '-lz']),
+         dict(name='c13_png_b', src='harness/c13_png_b.cpp', deps=_c13_png, libs=['-lpng', '-lz']),
          dict(name='c13_jpeg', src='harness/c13_jpeg.cpp', deps=_c13_lib, libs=['-ljpeg']),
          dict(name='c13_tiff_a', src='harness/c13_tiff_a.cpp', deps=_c13_tiff, libs=['-ltiffxx', '-ltiff']),
-         dict(name='c13_tiff_b', src='harness/c13_tiff_b.cpp', deps=_c13_tiff, libs=['-ltiffxx', '-ltiff'])],
+         dict(name='c13_tiff_b', src='harness/c13_tiff_b.cpp', deps=_c13_tiff, libs=['-ltiffxx', '-ltiff']),
+         dict(name='c13_tiff_c', src='harness/c13_tiff_c.cpp', deps=_c13_tiff, libs=['-ltiffxx', '-ltiff'])],
     runs=dict(
         quick=[dict(tu='c13_bmp', group='seeds', shards=10), dict(tu='c13_pnm', group='seeds', shards=3),
-               dict(tu='c13_targa', group='seeds', shards=3), dict(tu='c13_png', group='seeds', shards=4),
-               dict(tu='c13_jpeg', group='seeds', shards=2), dict(tu='c13_tiff_a', group='seeds', shards=5),
-               dict(tu='c13_tiff_b', group='seeds', shards=5)],
+               dict(tu='c13_targa', group='seeds', shards=3), dict(tu='c13_png_a', group='seeds', shards=3), dict(tu='c13_png_b', group='seeds', shards=3),
+               dict(tu='c13_jpeg', group='seeds', shards=2), dict(tu='c13_tiff_a', group='seeds', shards=4),
+               dict(tu='c13_tiff_b', group='seeds', shards=4), dict(tu='c13_tiff_c', group='seeds', shards=4)],
         thorough=[dict(tu='c13_bmp', group='seeds', bounds=dict(allrect=1), shards=16), dict(tu='c13_pnm', group='seeds', bounds=dict(allrect=1), shards=6),
-                  dict(tu='c13_targa', group='seeds', bounds=dict(allrect=1), shards=6), dict(tu='c13_png', group='seeds', bounds=dict(allrect=1), shards=8),
-                  dict(tu='c13_jpeg', group='seeds', bounds=dict(allrect=1), shards=4), dict(tu='c13_tiff_a', group='seeds', bounds=dict(allrect=1), shards=10),
-                  dict(tu='c13_tiff_b', group='seeds', bounds=dict(allrect=1), shards=10),
+                  dict(tu='c13_targa', group='seeds', bounds=dict(allrect=1), shards=6), dict(tu='c13_png_a', group='seeds', bounds=dict(allrect=1), shards=5),
+                  dict(tu='c13_png_b', group='seeds', bounds=dict(allrect=1), shards=5),
+                  dict(tu='c13_jpeg', group='seeds', bounds=dict(allrect=1), shards=4), dict(tu='c13_tiff_a', group='seeds', bounds=dict(allrect=1), shards=8),
+                  dict(tu='c13_tiff_b', group='seeds', bounds=dict(allrect=1), shards=8), dict(tu='c13_tiff_c', group='seeds', bounds=dict(allrect=1), shards=8),
                   dict(tu='c13_bmp', group='samples', shards=6), dict(tu='c13_pnm', group='samples', shards=2),
-                  dict(tu='c13_targa', group='samples', shards=2), dict(tu='c13_png', group='samples', shards=4),
-                  dict(tu='c13_jpeg', group='samples', shards=2), dict(tu='c13_tiff_a', group='samples'), dict(tu='c13_tiff_b', group='samples')]),
+                  dict(tu='c13_targa', group='samples', shards=2), dict(tu='c13_png_a', group='samples', shards=2), dict(tu='c13_png_b', group='samples', shards=4),
+                  dict(tu='c13_jpeg', group='samples', shards=2), dict(tu='c13_tiff_a', group='samples'), dict(tu='c13_tiff_b', group='samples'),
+                  dict(tu='c13_tiff_c', group='samples')]),
     witnesses_required=dict(quick=_c13_witness, thorough=_c13_witness + ['sample_files']),
     deadline=dict(quick=900, thorough=5400),
 )
